@@ -94,7 +94,9 @@ def one_case(args):
         data = frame.serialize(fp)
         desc0 = "G-frame RDH only, arbitrary headers"
     else:
-        fp = frame.generate(rng, rng.choice([3, 20, 80, 150]), payload="its", max_payload=rng.choice([100, 600, 2000]), sane_headers=(kind == "frame_its_sane"), its_only=True)
+        big_pl = rng.random() < 0.2        # scale: pages up to the 10 000-byte limit (> 512 words, > 8 KiB)
+        fp = frame.generate(rng, rng.choice([3, 20]) if big_pl else rng.choice([3, 20, 80, 150]), payload="its", max_payload=9990 if big_pl else rng.choice([100, 600, 2000]),
+                            sane_headers=(kind == "frame_its_sane"), its_only=True)
         for p in fp[1:]:
             if p.f["data_format"] == 2 and rng.random() < 0.2:
                 p.f["data_format"] = rng.choice([1, 3, 255])   # still 10-byte layout
